@@ -98,17 +98,26 @@ class Ctx:
             if cur is None or key < cur[0]:
                 self.viol[v['sig']] = (key, jsonable(case), v.get('detail'))
 
-    def run_cases(self, runner, cases, section=None, sample_every=None, chunksize=None, workers=None):
-        """Run runner(case) for every case in forked workers and record all results."""
+    def run_cases(self, runner, cases, section=None, sample_every=None, chunksize=None, workers=None, timeout=None):
+        """Run runner(case) for every case in forked workers and record all results.
+
+        A case that produces no result within the watchdog time (code under test that does not terminate) is
+        recorded as a violation of its own class; the remaining cases of the section are not run."""
         cases = list(cases)
         n0 = self.evaluations
 
         def fn(case):
             return case, runner(case)
-        for i, (case, res) in enumerate(par.pmap(fn, cases, chunksize=chunksize, workers=workers, ordered=True)):
-            self.record(case, res, section)
-            if i == 0 or i == len(cases) - 1 or (sample_every and i % sample_every == 0):
-                self.add_sample(case, key=(section, i))
+        try:
+            for i, (case, res) in enumerate(par.pmap(fn, cases, chunksize=chunksize, workers=workers, ordered=True,
+                                                     timeout=timeout)):
+                self.record(case, res, section)
+                if i == 0 or i == len(cases) - 1 or (sample_every and i % sample_every == 0):
+                    self.add_sample(case, key=(section, i))
+        except par.Hang as h:
+            self.exhaustive = False
+            self.record(cases[h.index], bad('%s:%s:no-result-within-watchdog-time' % (self.pid, section or 'case'),
+                                            {'seconds': h.seconds, 'first_pending_case': jsonable(cases[h.index])}), section)
         return self.evaluations - n0
 
     # ------------------------------------------------------------------ known findings
